@@ -117,7 +117,10 @@ Case(c) == [code   |-> c,
             lenC   |-> Len(ProgCall(c)),  validC |-> Sorted(ProgCall(c)),
             lenJ   |-> Len(ProgJump(c)),  validJ |-> Sorted(ProgJump(c)),
             lenI   |-> Len(ProgJumpi(c)), validI |-> Sorted(ProgJumpi(c))]
-Emit(c) == PrintT("CASE " \o ToJson(Case(c)))
+\* The property is about LEGACY code.  A byte string that starts with EF 00 is, by EIP-3540, an EOF container
+\* (or a malformed one) and not legacy code; no case is printed for it (the enumeration still passes through it).
+IsLegacy(c) == ~(Len(c) >= 2 /\ c[1] = 239 /\ c[2] = 0)
+Emit(c) == IF IsLegacy(c) THEN PrintT("CASE " \o ToJson(Case(c))) ELSE TRUE
 
 Init == code \in Heads /\ Emit(code)
 
